@@ -174,7 +174,13 @@ func (c cacheNode) TakeWithExpireCtx(ctx context.Context, val any, key string,
 }
 
 func (c cacheNode) aroundDuration(duration time.Duration) time.Duration {
-	return c.unstableExpiry.AroundDuration(duration)
+	d := c.unstableExpiry.AroundDuration(duration)
+	if d <= 0 && duration > 0 {
+		// the deviation must not turn a tiny expiry into "no expiry"
+		return duration
+	}
+
+	return d
 }
 
 func (c cacheNode) asyncRetryDelCache(keys ...string) {
